@@ -28,7 +28,7 @@ for pid in props:
 na = [{"property_id": p, "reason": NOT_APPLICABLE.get(p, "check not built yet in this round; no claim is made")} for p in props if p not in CHECKS]
 m = {
     "version": 1,
-    "setup_cmd": "cd lean && lake build",
+    "setup_cmd": "./tools/setup.sh",
     "hooks": {
         "guard": "CDD_VERIF",
         "enable": "no source hooks are needed: tracing/audit hooks are installed from the harness process (sys.settrace, sys.addaudithook)",
